@@ -101,7 +101,7 @@ extra = {
  "C18": " Also: FiniteReplayers of capacity 2..17 built by the public constructor with N+3 Puts, ValidReplayer public-API histories, and a Replay to a failing client before the evicting Put / collecting GC; reachability counterexamples are confirmed natively by a reflection walk over the replayer.",
  "C13": " A second harness runs a dispatch and an unsubscribe as two interpreted goroutines with mutex acquisitions as scheduling points (every interleaving), and one with a callback that cancels the request context.",
  "C11": " A call that can never return in the scenario (a receive/select nothing will make ready, e.g. waiting for a timer that does not fire after the context ended) is reported as a hang and confirmed natively under a watchdog; Connect called repeatedly on one Connection is covered.",
- "C12": " The quick tier also runs a jitter configuration over histories of 4 events with the random draws at {0, 1/2, largest double below 1} (the wait is monotone in the draw); the fully symbolic draw is in the thorough tier (z3 5.1 floating point).",
+ "C12": " The quick tier also runs a jitter configuration over histories of 4 events with the random draws at {0, 1/2, largest double below 1} (the wait is monotone in the draw); a fully symbolic draw (IEEE floating point) did not complete reliably in any installed solver and is not registered.",
  "C07": " Covered as well: a Shutdown context that ends while Joe is busy, consumers whose Send returns once a pending Publish or the Shutdown call has returned, and 'Shutdown returned nil implies every subscriber released'.",
 }
 for p in props:
